@@ -109,6 +109,12 @@ class NewtonRaphsonGeometry(StandardGeometry, ABC):
         Returns:
             tuple: The intersection points (x, y, z).
         """
+        if np.isinf(self.radius):
+            # flat base surface: start from the vertex plane
+            t = -rays.z / rays.N
+            return (rays.x + t * rays.L, rays.y + t * rays.M,
+                    rays.z + t * rays.N)
+
         a = rays.L**2 + rays.M**2 + rays.N**2
         b = (2 * rays.L * rays.x + 2 * rays.M * rays.y -
              2 * rays.N * self.radius + 2 * rays.N * rays.z)
